@@ -212,6 +212,30 @@ CLAIMED = {
                                'route and policy tables'),
 }
 
+CLAIMED['C11'] = dict(
+    text="Table-agreement clauses only (the property as a whole - every "
+         "response equals a reference model of the API over all histories - "
+         "is NOT decided): every column written takes the same-named "
+         "attribute of the object being stored (37 column sources); every "
+         "label of the reader queries that feed API objects names its own "
+         "column and table (25 labels); every object built from a record "
+         "takes field k from key k / <entity>_k of its own entity (31 "
+         "fields); the serialisers emit each response key from the reviewed "
+         "attribute, and the inventory field set is one and the same from "
+         "schema through defaults, INSERT/UPDATE, SELECT, object and "
+         "response; the usage and allocation views have the reviewed SQL "
+         "shape (SUM(allocations.used), join keys, grouping) and hand the "
+         "aggregate column to Usage.usage; the success statuses of all 36 "
+         "routes equal the api-ref's Normal Response Codes. A swapped or "
+         "dropped field, a label carrying another column, a view joining on "
+         "the wrong key or a changed success status breaks C11 and is "
+         "reported; values, defaults' meaning, ordering of histories and "
+         "error statuses are not decided.",
+    ref='3/C11', technique='writer/reader table agreement over constant-'
+                           'folded schemas, SQL effect extraction, labelled '
+                           'column flow into constructors, frozen '
+                           'normalised SQL shapes, documentation cross-check')
+
 NOT_APPLICABLE = {
     'C03': "extensional equality of a multi-path search (SQL + set algebra + "
            "itertools.product) with a declarative specification over all "
